@@ -51,6 +51,7 @@ package state
 //@   noframe
 //@   ensures err == nil ==> has(gmap("vis", self), str(key)) && str(result0) == gmap("vis", self)[str(key)]
 //@   ensures is(err, database.ErrNotFound) ==> !has(gmap("vis", self), str(key))
+//@   ensures err != nil ==> len(result0) == 0
 //@   ensures stok(self) ==> (err == nil) == has(gmap("vis", self), str(key))
 //@   ensures stok(self) && err != nil ==> err == database.ErrNotFound
 //@ func Mutable.Insert
